@@ -457,12 +457,101 @@ def startdir_history_stream(ctx, res):
                 os.environ["HOME"] = home0
 
 
+def siblings_and_reappearing_files_stream(ctx, res):
+    """(a) several sibling fields of the SAME config type (and of the same sub-schema object mounted twice is not possible, so: two
+    config-type fields, a config-type field next to a plain section of equal shape), each naming its own include file: every one of
+    them is merged, the result equals loading the hand-merged tree; (b) an include file that does not exist at the first load (the
+    load fails) and exists at the second: the second load — into a new configuration and into the same one — merges it; and the other
+    way round (a file that existed and was removed makes the later load fail)"""
+    import cincoconfig as cc
+    tmp = os.path.realpath(ctx.tmpdir())
+    # (a)
+    db = cc.Schema()
+    db.include = cc.IncludeField(startdir=tmp)
+    db.host = cc.StringField(default="localhost")
+    db.port = cc.IntField(default=1)
+    db.opts.retries = cc.IntField(default=1)
+    Db = cc.make_type(db, "SibDb")
+    s = cc.Schema()
+    s.primary = Db
+    s.replica = Db
+    s.archive = Db
+    s.plain.include = cc.IncludeField(startdir=tmp)
+    s.plain.host = cc.StringField(default="localhost")
+    files = {"p.json": {"host": "p.example", "port": 5000, "opts": {"retries": 5}}, "r.json": {"host": "r.example", "port": 6000, "opts": {"retries": 7}},
+             "a.json": {"host": "a.example"}, "x.json": {"host": "x.example"}}
+    for name, tree in files.items():
+        with open(os.path.join(tmp, name), "w") as fp:
+            json.dump(tree, fp)
+    for which in (["primary"], ["replica"], ["primary", "replica"], ["replica", "archive"], ["primary", "replica", "archive", "plain"], ["archive", "plain"]):
+        doc = {}
+        merged = {}
+        for k, fname in (("primary", "p.json"), ("replica", "r.json"), ("archive", "a.json"), ("plain", "x.json")):
+            if k in which:
+                doc[k] = {"include": fname, "port": 2222} if k != "plain" else {"include": fname}
+                merged[k] = dict({"port": 2222} if k != "plain" else {}, **files[fname])
+                merged[k]["include"] = fname
+        case = {"stream": "sibling-config-types", "sections_with_an_include": which}
+        res.case(stable(case), kind="sibling-config-types")
+        try:
+            a, b = s(), s()
+            a.loads(json.dumps(doc).encode(), format="json")
+            b.load_tree(json.loads(json.dumps(merged)))
+            ta, tb = a.to_tree(), b.to_tree()
+            for t in (ta, tb):
+                for k in t:
+                    if isinstance(t[k], dict):
+                        t[k].pop("include", None)
+        except Exception as e:  # noqa
+            res.violate("C18:sibling-scopes", "loading a document whose sibling sections each name an include raised %s" % type(e).__name__, dict(case, error=str(e)[:120]))
+            continue
+        if ta != tb:
+            res.violate("C18:sibling-scopes", "a document whose sibling sections (fields of one config type) each name an include file does not load like the hand-merged tree",
+                        dict(case, with_includes=ta, merged=tb))
+    # (b)
+    for fmt, opts in (("json", {}), ("yaml", {"root_key": "APP"})):
+        sub = os.path.join(tmp, "conf-%s" % fmt)
+        os.makedirs(sub, exist_ok=True)
+        t = cc.Schema()
+        t.name = cc.StringField(default="n")
+        t.db.include = cc.IncludeField(startdir=sub)
+        t.db.host = cc.StringField(default="localhost")
+        F_ = cc.ConfigFormat.get(fmt, **opts)
+        inc = os.path.join(sub, "site-db." + fmt)
+        doc = F_.dumps(None, {"name": "site", "db": {"include": "site-db." + fmt}})
+        if os.path.exists(inc):
+            os.remove(inc)
+        same = t()
+        plan = [("absent", False), ("created", True), ("created", True), ("removed", False), ("created", True)]
+        for k, (state, should_load) in enumerate(plan):
+            if state == "created":
+                with open(inc, "wb") as fp:
+                    fp.write(cc.ConfigFormat.get(fmt).dumps(None, {"host": "db-%d.example" % k}) if not opts else F_.dumps(None, {"host": "db-%d.example" % k}))
+            elif os.path.exists(inc):
+                os.remove(inc)
+            for target_kind in ("new", "same"):
+                cfg = t() if target_kind == "new" else same
+                case = {"stream": "reappearing-include", "fmt": fmt, "load": k, "file_is": state, "into": target_kind}
+                res.case(stable(case), kind="reappearing-include")
+                try:
+                    cfg.loads(doc, format=fmt, **opts)
+                    got = cfg.db.host
+                except Exception as e:  # noqa
+                    got = "raised %s" % type(e).__name__
+                if should_load and got != "db-%d.example" % k:
+                    res.violate("C18:include-state-remembered", "an include file that exists at the time of the load was not merged (an earlier load had found it missing, or had "
+                                "read another content)", dict(case, got=got))
+                elif not should_load and not str(got).startswith("raised"):
+                    res.violate("C18:missing-include-accepted", "a load succeeded although the include file does not exist at the time of the load", dict(case, got=got))
+
+
 def run(ctx):
     res = Result()
     guard(res, "C18", stream_a, ctx, res, ctx.n(2000, 60000))
     guard(res, "C18", stream_b, ctx, res, ctx.n(150, 3000))
     guard(res, "C18", file_bytes_stream, ctx, res)
     guard(res, "C18", startdir_history_stream, ctx, res)
+    guard(res, "C18", siblings_and_reappearing_files_stream, ctx, res)
     return res
 
 
